@@ -85,6 +85,11 @@ for _p, _share in (("C02", 0.2), ("C08", 0.3), ("C09", 0.25), ("C12", 0.25), ("C
     PLANS[_p]["rule"] += RACE_NOTE
     PLANS[_p]["assumptions"] = PLANS[_p]["assumptions"] + ["race stage: Go race detector semantics (happens-before over sync operations; simnet's mutex/cond stands in for the kernel's socket synchronisation)"]
 
+PLANS["C14"]["stages"][0]["share"] = 0.93
+PLANS["C14"]["stages"].append(dict(bin="nsqlookupd", world="lookupdapp", prop="C14", share=0.07))
+PLANS["C14"]["rule"] += "; a small share of the budget runs the application world: the real program.Start() of apps/nsqlookupd (flag set, TOML config file, options.Resolve, New, Main) is given inactive-producer-timeout and tombstone-lifetime as flags, config-file keys, or both with the flags winning, and /lookup must change exactly 1 ms before/after the configured durations have passed"
+PLANS["C14"]["components"] = dict(real=REAL_L + ["apps/nsqlookupd: program.Start (nsqlookupdFlagSet, toml.DecodeFile, options.Resolve)"], stub=PLANS["C14"]["components"]["stub"])
+
 # application stage: the real program.Init()/Start() of apps/nsqd configured by flags and a TOML file
 APP_NOTE = "; a share of the budget runs the application world: the real program.Init()/Start() of apps/nsqd (flag set, TOML config file, config.Validate, options.Resolve, nsqd.New, LoadMetadata, Main) is given %s as command-line flags, as config-file keys, or both with the flags winning, and the daemon must enforce exactly the configured values"
 for _p, _share, _what in (("C09", 0.1, "its limits (max-msg-size, max-body-size, max-rdy-count, max-req-timeout, max-heartbeat-interval, max-output-buffer-size/-timeout, max-msg-timeout, max-deflate-level; each probed at the value and one past it)"),
@@ -111,10 +116,10 @@ PLANS["C20"] = dict(stages=[dict(bin="to_nsq", world="tonsq", prop="C20", share=
     components=dict(real=REAL_APP + ["apps/to_nsq, apps/nsq_to_nsq, apps/nsq_to_http: the real main() (flag parsing on a fresh FlagSet bound to the package's flag variables, option validation, producers/consumers, responder, signal handling)", "github.com/bitly/go-hostpool, timer_metrics"], stub=STUB_Q + ["stub destination nsqds (minimal V2 server in the harness)", "stub HTTP endpoints (net/http handlers in the harness)", "simos.Stdin reader with short reads"]),
     assumptions=ASSUME, crash_property="C20")
 
-WORLD_BIN = {"nsqdapp": "nsqd", "adminapp": "nsqadmin", "tonsq": "to_nsq", "nsq2nsq": "nsq_to_nsq", "nsq2http": "nsq_to_http", "tofile": "nsq_to_file", "policy": "world", "queue": "world", "lookupd": "world", "proto": "world", "meta": "world", "cluster": "world", "admin": "world"}
+WORLD_BIN = {"lookupdapp": "nsqlookupd", "nsqdapp": "nsqd", "adminapp": "nsqadmin", "tonsq": "to_nsq", "nsq2nsq": "nsq_to_nsq", "nsq2http": "nsq_to_http", "tofile": "nsq_to_file", "policy": "world", "queue": "world", "lookupd": "world", "proto": "world", "meta": "world", "cluster": "world", "admin": "world"}
 SELFTEST_WORLDS = [("queue", "ALL"), ("queue", "C08"), ("queue", "C05"), ("queue", "C12"), ("lookupd", "C14"), ("lookupd", "C15"), ("proto", "C09"), ("proto", "C10"),
-                   ("policy", "C11"), ("meta", "C06"), ("cluster", "C16"), ("admin", "C17"), ("admin", "C18"), ("adminapp", "C17"), ("nsqdapp", "C09"), ("nsqdapp", "C11"), ("tofile", "C19"), ("tonsq", "C20"), ("nsq2nsq", "C20"), ("nsq2http", "C20")]
-ALL_TARGETS = ["world", "world_race", "nsq_to_file", "to_nsq", "nsq_to_nsq", "nsq_to_http", "nsqadmin", "nsqd"]
+                   ("policy", "C11"), ("meta", "C06"), ("cluster", "C16"), ("admin", "C17"), ("admin", "C18"), ("adminapp", "C17"), ("lookupdapp", "C14"), ("nsqdapp", "C09"), ("nsqdapp", "C11"), ("tofile", "C19"), ("tonsq", "C20"), ("nsq2nsq", "C20"), ("nsq2http", "C20")]
+ALL_TARGETS = ["world", "world_race", "nsq_to_file", "to_nsq", "nsq_to_nsq", "nsq_to_http", "nsqadmin", "nsqd", "nsqlookupd"]
 
 SIMNOTE = ("assumes the trusted base of DESIGN.md 6: Go 1.26.8 synctest + five runtime patches, the two-rule AST rewriter, simnet/simos fidelity, "
            "one-P atomicity between synchronisation operations; oracles see the wire only (frames, HTTP, /stats, data directory)")
